@@ -1,7 +1,7 @@
 #!/usr/bin/env python3
 """Writes /verif/MANIFEST.json from the table below (maintenance helper; run by hand after adding a check)."""
 import json
-HOOK_COMMITS = ["7c8ef5d", "00db8be"]
+HOOK_COMMITS = ["7c8ef5d", "00db8be", "c5ee400"]
 E1_NOTE = ("Sequentially consistent interleavings at the granularity of the hooked operations (every protocol atomic, every plain shared "
            "access listed in DESIGN.md §1); Ordering arguments, weak-memory effects, torn plain accesses and spurious weak-CAS failures are not modelled. "
            "Threads, operations per thread and the deviation bound are finite and reported in the evidence. Trusted: rustc, std, crossbeam-channel, "
@@ -11,6 +11,7 @@ checks = {
  "C02": ("mcx", "E1: same executions plus the four raw rings; oracle: brute-force linearizability against a bounded FIFO, permissive interval rule for 'full' answers, length range", "§4 C02", "stateless deviation-bounded DFS over thread schedules + Wing-Gong linearizability search"),
  "C03": ("mcx", "E1: every schedule of 1-3 producers x 1-2 independently polled listeners (fixed listener set, dense and non-dense stream ids) on the six real Multi channels, all implemented send entry points, fewer events than BUFFER; oracle per listener: exactly-once, per-producer order, nothing alien; across listeners: same allocation per event, distinct storage for events held simultaneously", "§4 C03", "stateless deviation-bounded DFS over thread schedules of the real code + per-listener exactly-once/order oracle"),
  "C04": ("mcx", "E1: every schedule of producers against *driven* (park/unpark) streams for the 11 channel kinds x entry points x MAX_STREAMS x streams created; oracle: no accepted event pending when all producers returned and all streams are parked", "§4 C04", "stateless deviation-bounded DFS over thread schedules + quiescence oracle"),
+ "C07": ("mcx", "E1: every schedule of a requester (cancel_all_streams, or gracefully_end_stream of one id on a paused tokio runtime) against 1-2 driven streams and a concurrent producer, for the 11 channel kinds; oracle at quiescence: no targeted stream is left parked, nothing alien/duplicated is yielded, stream accounting and id reuse are exact, untargeted streams still receive an event sent afterwards", "§4 C07", "stateless deviation-bounded DFS over thread schedules + quiescence oracle"),
  "C18": ("mcx", "E1: every schedule of 2-4 threads x 2-3 operations on the four stand-alone containers (capacity 2/4, prefilled 0-2); oracle: strict linearizability against a bounded LIFO / FIFO including 'full' and 'empty' answers", "§4 C18", "stateless deviation-bounded DFS over thread schedules + Wing-Gong linearizability search"),
 }
 ALL = ["C%02d" % i for i in range(1, 21)]
